@@ -3,6 +3,8 @@ import FlVerif.Lemmas.CodeFllExportNamed
 import FlVerif.Lemmas.CodeFllExportFormat
 import FlVerif.Lemmas.CodeFllImportEngine
 import FlVerif.Lemmas.CodeFllImportTerm
+import FlVerif.Lemmas.CodeTermParse
+import FlVerif.Lemmas.CodeTermParseOps
 
 /-! # C14 — FuzzyLite Language export / import round-trips engines
 
@@ -397,6 +399,137 @@ example : Stable (keepHeightPinned sampleCfg) sampleCfg sample := by
   intro h hh; revert h; decide +kernel
 example : ¬ Stable (keepHeightPinned f11Cfg) f11Cfg f11Engine :=
   (pinned_unstable_iff f11Cfg f11Engine).2 ⟨.fin (9986/10000), by decide +kernel, by decide +kernel, by decide +kernel⟩
+
+
+/-! ## Tie A: term parameters
+
+The import side of term parameters, regenerated from the current source (`Gen/CodeTermParse.lean`): `Term._parse`, the
+`configure` methods of representative classes, and the helpers of `Operation` the FuzzyLite Language layer uses.  The
+translated code works on the parameter *text*; the importer model (`numsOf`, `parseShape`, `configure`) on its *tokens*
+`Py.FllIn.toks rd parameters` = the words of the text (`parameters.split()`), a word being a number token `.n x` where
+the reader `rd` (`to_float`, i.e. CPython's `float(text)`) reads `x` and a word token otherwise.  `rd` is a parameter:
+the theorems hold for every reader; the text layer of the driver uses `parseNum` (`tokens_are_lexer_tokens`).
+All failures of these functions are `ValueError`s, as the model says (`Err.value`). -/
+
+/-- with `parseNum` as the reader the tokens are the tokens the lexer of the text layer makes of the words -/
+theorem tokens_are_lexer_tokens (parameters : String) :
+    Py.FllIn.toks parseNum parameters = (Py.split parameters).map numTokOf := rfl
+
+/-- `to_float(x)` of a string is the reader `rd` of the theorems below (`settings.float_type(x)`): `ValueError` where it
+    reads no number -/
+theorem code_toFloat (rd : String → Option Num) (x : String) :
+    match rd x with
+    | none => Gen.Code.to_float.run rd x {} = .error .value
+    | some v => ∃ σ, Gen.Code.to_float.run rd x {} = .ok σ ∧ σ.ret = some v :=
+  Py.FllIn.code_toFloat rd x
+
+/-- `Term._parse(required, parameters, height=…)`: the values and the count check of `parseShape`; the list returned is
+    the parameters followed by the height (1 when it is optional and absent) -/
+theorem code_termParse (rd : String → Option Num) (required : ℕ) (parameters : String) (height : Bool) :
+    match numsOf (Py.FllIn.toks rd parameters) >>= parseShape required height with
+    | .error e => Gen.Code.Term_parse.run rd required parameters height {} = .error e.toPy
+    | .ok b => ∃ σ, Gen.Code.Term_parse.run rd required parameters height {} = .ok σ ∧
+        σ.ret = some (Py.FllIn.shapeValues b) :=
+  Py.FllIn.code_termParse rd required parameters height
+
+/-- `Triangle.configure`: three parameters and the optional height, assigned in this order -/
+theorem code_triangleConfigure (rd : String → Option Num) (parameters : String) :
+    match numsOf (Py.FllIn.toks rd parameters) >>= parseShape 3 true with
+    | .error e => Gen.Code.Triangle_configure.run rd parameters {} = .error e.toPy
+    | .ok b => ∃ σ, Gen.Code.Triangle_configure.run rd parameters {} = .ok σ ∧
+        b = .shape [σ.self_left, σ.self_top, σ.self_right] (some σ.self_height) :=
+  Py.FllIn.code_triangleConfigure rd parameters
+
+/-- `Trapezoid.configure`: four parameters and the optional height -/
+theorem code_trapezoidConfigure (rd : String → Option Num) (parameters : String) :
+    match numsOf (Py.FllIn.toks rd parameters) >>= parseShape 4 true with
+    | .error e => Gen.Code.Trapezoid_configure.run rd parameters {} = .error e.toPy
+    | .ok b => ∃ σ, Gen.Code.Trapezoid_configure.run rd parameters {} = .ok σ ∧
+        b = .shape [σ.self_bottom_left, σ.self_top_left, σ.self_top_right, σ.self_bottom_right] (some σ.self_height) :=
+  Py.FllIn.code_trapezoidConfigure rd parameters
+
+/-- `Constant.configure`: one parameter, no height -/
+theorem code_constantConfigure (rd : String → Option Num) (parameters : String) :
+    match numsOf (Py.FllIn.toks rd parameters) >>= parseShape 1 false with
+    | .error e => Gen.Code.Constant_configure.run rd parameters {} = .error e.toPy
+    | .ok b => ∃ σ, Gen.Code.Constant_configure.run rd parameters {} = .ok σ ∧ b = .shape [σ.self_value] none :=
+  Py.FllIn.code_constantConfigure rd parameters
+
+/-- the counts `3 / 4 / 1` and the height flags in the three theorems above are those of the regenerated table, and the
+    model's `configure` of such a class (the importer calls it with at least one token) is `numsOf` then `parseShape` -/
+theorem configure_parse_classes (ps : List Tok) (hp : ps ≠ []) :
+    configure "Triangle" ps = (numsOf ps >>= parseShape 3 true) ∧
+    configure "Trapezoid" ps = (numsOf ps >>= parseShape 4 true) ∧
+    configure "Constant" ps = (numsOf ps >>= parseShape 1 false) :=
+  ⟨Py.FllIn.configure_of_arity _ _ _ ps (by decide) (by decide) (by decide) hp,
+   Py.FllIn.configure_of_arity _ _ _ ps (by decide) (by decide) (by decide) hp,
+   Py.FllIn.configure_of_arity _ _ _ ps (by decide) (by decide) (by decide) hp⟩
+
+/-- `Linear.configure`: every word is a coefficient -/
+theorem code_linearConfigure (rd : String → Option Num) (parameters : String) :
+    match configure "Linear" (Py.FllIn.toks rd parameters) with
+    | .error e => Gen.Code.Linear_configure.run rd parameters {} = .error e.toPy
+    | .ok b => ∃ σ, Gen.Code.Linear_configure.run rd parameters {} = .ok σ ∧ b = .linear σ.self_coefficients :=
+  Py.FllIn.code_linearConfigure rd parameters
+
+/-- `Discrete.configure`: an even number of words are the pairs (height 1); with an odd number the last word is the
+    height (read first) and the others are the pairs (`values` as the flat row-major list of the `n × 2` array) -/
+theorem code_discreteConfigure (rd : String → Option Num) (parameters : String) :
+    match configure "Discrete" (Py.FllIn.toks rd parameters) with
+    | .error e => Gen.Code.Discrete_configure.run rd parameters {} = .error e.toPy
+    | .ok b => ∃ σ, Gen.Code.Discrete_configure.run rd parameters {} = .ok σ ∧
+        b = .discrete σ.self_values σ.self_height :=
+  Py.FllIn.code_discreteConfigure rd parameters
+
+/-- `Function.configure`: the formula is the whole parameter text; `load` stands for `Function.load` on it (C17), whose
+    exceptions pass through – loading is outside the model of this property -/
+theorem code_functionConfigure (load : String → Py.M Unit) (parameters : String) :
+    match load parameters with
+    | .error e => Gen.Code.Function_configure.run load parameters {} = .error e
+    | .ok _ => ∃ σ, Gen.Code.Function_configure.run load parameters {} = .ok σ ∧
+        configure "Function" [.w parameters] = .ok (.function σ.self_formula) :=
+  Py.FllIn.code_functionConfigure load parameters
+
+/-- `Op.as_identifier(name)`: the characters that are alphanumeric or `_` are kept, an empty result is `_`, a leading
+    numeric character gets `_` in front – for any character classes `str.isalnum` / `str.isnumeric` in which `_` is
+    not numeric -/
+theorem code_asIdentifier (alnum numeric : Char → Bool) (hu : numeric '_' = false) (name : String) :
+    ∃ σ, Gen.Code.Op_as_identifier.run alnum numeric name {} = .ok σ ∧
+      σ.ret = some (Py.FllIn.asIdentWith alnum numeric name) :=
+  Py.FllIn.code_asIdentifier alnum numeric hu name
+
+/-- the model's `asIdent` is `Op.as_identifier` with the ASCII character classes (the model's reading of `isalnum` /
+    `isnumeric`; names with other letters or digits are outside the model), which satisfy the side condition -/
+theorem asIdent_is_ascii_instance (name : String) :
+    asIdent name = Py.FllIn.asIdentWith Char.isAlphanum Char.isDigit name ∧ Char.isDigit '_' = false :=
+  ⟨Py.FllIn.asIdent_eq name, Py.FllIn.underscore_not_numeric⟩
+
+/-- `Op.strip_comments(fll, delimiter)` for a one-character delimiter: every line is cut at the first delimiter and
+    stripped, empty lines are dropped, the others joined by new lines -/
+theorem code_stripComments (fll : String) (delim : Char) :
+    ∃ σ, Gen.Code.Op_strip_comments.run fll delim {} = .ok σ ∧ σ.ret = some (Py.FllIn.stripComments delim fll) :=
+  Py.FllIn.code_stripComments fll delim
+
+/-- the lexer of the driver's text layer cuts a physical line in the same way (`stripLine '#'`) -/
+theorem lexer_strips_like_strip_comments (s : List Char) :
+    lexLine s =
+      if (Py.FllIn.stripLine '#' s).isEmpty then .ok none
+      else match (Py.FllIn.stripLine '#' s).span (· ≠ ':') with
+        | (_, []) => .error .syntax
+        | (k, _ :: v) => .ok (some ⟨Key.ofText (String.ofList (trimChars k)),
+            lexValue (Key.ofText (String.ofList (trimChars k))) (trimChars v)⟩) :=
+  Py.FllIn.lexLine_stripLine s
+
+/-- `Op.scale(x, x_min, x_max, y_min, y_max)` -/
+theorem code_scale (x xmin xmax ymin ymax : X Rat) :
+    ∃ σ, Gen.Code.Op_scale.run x xmin xmax ymin ymax {} = .ok σ ∧
+      σ.ret = some (X.add (X.mul (X.div (X.sub ymax ymin) (X.sub xmax xmin)) (X.sub x xmin)) ymin) :=
+  Py.FllIn.code_scale x xmin xmax ymin ymax
+
+/-- `Op.bound(x, minimum, maximum)` = `np.clip` -/
+theorem code_bound (x lo hi : X Rat) :
+    ∃ σ, Gen.Code.Op_bound.run x lo hi {} = .ok σ ∧ σ.ret = some (X.clip x lo hi) :=
+  Py.FllIn.code_bound x lo hi
 
 
 /-! ## Tie A: exporter
